@@ -45,7 +45,10 @@ def run(ctx):
     per, depth, max_insts = (14, 3, 12) if ctx.quick else (45, 4, 14)
     cases, gstats = cc.build_cases(ctx, per, max_insts)
     live = [c for c in cases if c.live]
-    reports = cc.coq_reports(ctx, live, lambda c: cc.sound_term(c, depth), label="sound", shard=8 if ctx.quick else 12,
+    def depth_of(c):          # thorough: one level deeper on small compiled problems
+        return depth + 1 if (not ctx.quick and len(c.comp.insts) <= 6) else depth
+
+    reports = cc.coq_reports(ctx, live, lambda c: cc.sound_term(c, depth_of(c)), label="sound", shard=8 if ctx.quick else 12,
                              timeout=1500)
     nontrivial = set()
     nfail = 0
@@ -80,7 +83,7 @@ def run(ctx):
                  tags,
                  dict(cc.case_json(c), compiled_plan=c.comp.plan_json(w), mapped_back_plan=c.orig.plan_json(image),
                       real_validator_on_compiled=[rv_c, why_c], real_validator_on_original=[rv_o, why_o],
-                      coq_oracle="UPV.Compilers.SimCheck.sound_search (depth %d)" % depth, shape_tags=cc.shape_tags(c.problem)),
+                      coq_oracle="UPV.Compilers.SimCheck.sound_search (depth %d)" % depth_of(c), shape_tags=cc.shape_tags(c.problem)),
                  True)
     if not ok_proofs:
         ctx.proof_broken()
@@ -97,7 +100,7 @@ def run(ctx):
         "rule": "one evaluation = one (original, compiled, map-back table) triple searched exhaustively over compiled plans up to depth %d; non-trivial = the compiled problem has at least one VALID plan within the depth (counted in Coq) and some compiled instance maps back to an original instance; distinct by generated problem" % depth,
         "samples": samples,
         "distribution": dist,
-        "depth": depth,
+        "depth": depth, "depth_small_problems": depth if ctx.quick else depth + 1,
         "exhaustive": False,
     }, "translation_validation",
         assumptions=["problems are sampled (generated inside each compiler's supported kind, all fluents initially defined except for UndefinedInitialNumericRemover); plans are covered exhaustively up to the depth",
